@@ -446,21 +446,25 @@ func (d *rawServerDriver) Next(w *World, step int) string {
 	for _, p := range d.plans {
 		rs := w.rpcs[p.r]
 		if !p.newIssued {
-			add(3, fmt.Sprintf("cnew r=%d t=0 shape=%s method=auto md=-", p.r, p.shape))
+			if p.invoke {
+				add(3, fmt.Sprintf("cinvoke r=%d t=0 size=%d md=-", p.r, pickSize(rng, false)))
+			} else {
+				add(3, fmt.Sprintf("cnew r=%d t=0 shape=%s method=auto md=-", p.r, p.shape))
+			}
 			continue
 		}
 		if rs == nil || !rs.started {
 			continue
 		}
 		cTerm := w.flag(fmt.Sprintf("cterm%d", p.r))
-		if !rs.cw.isBusy() && !cTerm {
+		if !rs.cw.isBusy() && !cTerm && !p.invoke {
 			if p.ci < len(p.cSends) {
 				add(2, fmt.Sprintf("csend r=%d size=%d", p.r, p.cSends[p.ci]))
 			} else if !p.cClosed {
 				add(2, fmt.Sprintf("cclose r=%d", p.r))
 			}
 		}
-		if !cTerm && !rs.cr.isBusy() {
+		if !cTerm && !rs.cr.isBusy() && !p.invoke {
 			add(2, fmt.Sprintf("crecv r=%d", p.r))
 		}
 		if rng.Intn(25) == 0 && !cTerm {
@@ -493,7 +497,7 @@ func (d *rawServerDriver) Next(w *World, step int) string {
 	mv := moves[rng.Intn(len(moves))]
 	f := strings.Fields(mv)
 	switch f[0] {
-	case "cnew", "csend", "cclose":
+	case "cnew", "csend", "cclose", "cinvoke":
 		(&workload{plans: d.plans}).commit(mv)
 		return mv
 	case "SHDR":
